@@ -26,6 +26,7 @@ func init() {
 var phiName = regexp.MustCompile(`φ[A-Za-z_0-9]+(⟨[^⟩]*⟩)?`)
 
 func runC18(c *Ctx) {
+	defer c.shared("R10", "C01/R6", "only a dangling %% is an error, and `%%%%` or a directive at the very end of the format is not: every byte of the format is read under a bound established for that very index (a test hoisted out of the scan, such as `the format ends in %%`, does not establish it)", keyHas("nativePrintf"), func(s *Ctx) { indexGuards(s, "R6") })
 	defer c.shared("R8", "C09/R3", "an argument of the wrong kind is an error: the copy made when arguments are evaluated keeps the kind (a regex stays a regex, so %%s rejects it)", keyHas("copy Value"), c09R3)
 	defer c.shared("R7", "C17/R2", "%f is replaced by the rendering of the number: String() and the renderer produce FormatFloat(x, 'f', -1, 64) and nothing else (no integer fast path)", ruleIs("R2"), runC17)
 	defer c.shared("R6", "C08/R4", "each directive shows the value its argument had when it was evaluated: call arguments (printf's included) are evaluated into cells of their own, so a later argument's side effect cannot change an earlier one", keyHas("call-arguments-copied"), c08R4)
@@ -150,7 +151,6 @@ func runC18(c *Ctx) {
 		{"lang.checkArg(args, φint1, ValueStr)", []string{fmtByte + " == 115"}},
 		{"lang.checkArg(args, φint1, ValueNum)", []string{fmtByte + " == 102"}},
 		{"(*lang.Value).PrettyString(args[φint1], false)", []string{fmtByte + " == 118", "(len(args) - 1) >= φint1"}},
-		{"(*strings.Builder).WriteString(&strings.Builder{}, (*lang.Value).PrettyString(args[φint1], false))", []string{fmtByte + " == 118"}},
 	}
 	r := &renderer{p: p, noExpand: true, depth: 2}
 	got := map[string][]map[string]bool{}
@@ -211,7 +211,9 @@ func runC18(c *Ctx) {
 			c.violated("R2", "extra-write "+nw, p.Pos(pf.Pos()), "printf adds text that is not part of the format: "+nw+" (no separators and no newline are added)")
 		}
 	}
-	c.check(nPadded == 2, "R2", "padded-writes", p.Pos(pf.Pos()), "two padded argument writes (%s and %f)", fmt.Sprintf("%d padded argument writes found, 2 expected", nPadded))
+	// a width pads the rendering of every directive that has one: %s, %f and %v alike (F-31: the width of
+	// %v used to be parsed and ignored, and this count said 2)
+	c.check(nPadded == 3, "R2", "padded-writes", p.Pos(pf.Pos()), "three padded argument writes (%s, %f and %v)", fmt.Sprintf("%d padded argument writes found, 3 expected (one per directive that renders an argument)", nPadded))
 	// unknown directive / dangling % errors exist
 	errs := map[string]bool{}
 	for _, ret := range returnsOf(pf) {
@@ -284,6 +286,11 @@ func runC18(c *Ctx) {
 				s = cand
 			}
 		}
+		for _, cand := range []string{"(*lang.Value).PrettyString(args[φint1], false)", "(*lang.Value).prettyStringInteral(args[φint1], [][:0], false, false)"} {
+			if strings.Contains(cnt, cand) {
+				s = cand
+			}
+		}
 		if s == "" {
 			c.undecided("R3", key, p.InstrPos(call), "pad count "+cnt+" is not computed from the rendering of the current argument")
 			continue
@@ -309,7 +316,7 @@ func runC18(c *Ctx) {
 		pad := sh(call.Common().Args[0])
 		c.check(pad == `phi(" " | "0")`, "R3", key+" pad", p.InstrPos(call), `" " or "0"`, "the pad string is "+pad)
 	}
-	c.check(nRep == 4, "R3", "repeat-count", p.Pos(pf.Pos()), "4 padding sites (2 directives x 2 signs)", fmt.Sprintf("%d padding sites found, 4 expected", nRep))
+	c.check(nRep == 6, "R3", "repeat-count", p.Pos(pf.Pos()), "6 padding sites (3 directives x 2 signs)", fmt.Sprintf("%d padding sites found, 6 expected (%%s, %%f, %%v x left, right)", nRep))
 	// pad "0" exactly under numStr[0] == '0'
 	zeroOK := false
 	allInstrs(pf, func(in ssa.Instruction) {
